@@ -72,3 +72,15 @@ check("C06", "model_checking",
       "JobTrace validates every event (attempt bound, vector-is-current, re-sample inside box, failed list order/content, exception law).",
       "trusted: TLC; scripted objective; exception identity observed at the caller of Algorithm.evaluate / run",
       "TLC exhaustive fault model + every TLC-emitted fault pattern replayed + TLC trace validation", "DESIGN.md 5/C06")
+
+check("C07", "model_checking",
+      "Job.tla in parallel mode (workers, pending queue, per-worker pc, exclusive store lock; Take / Begin / ReturnOk / SyncBegin / Commit): "
+      "TLC explores ALL interleavings for 3x2, 3x3 (thorough 4x2, 4x3, 5x2) designs x workers and 2x2 (3x2) with transient and fatal faults: "
+      "one call per design, final record = serial record, every evaluated design has its final row, lock exclusive; liveness under weak "
+      "fairness. JobGen emits every distinct schedule (order of objective returns and store synchronisations); each is forced onto the real "
+      "joblib threads by gates in the user objective and around data_store.sync_individual (a quarter with a real SQLite file, read back "
+      "through an independent connection); free-running stress runs with 2-8 workers, SQLite and transient failures are recorded too. "
+      "JobTrace validates every event and the end state against the per-design projection of the model.",
+      "trusted: TLC; the gate controller (releases only when every busy worker is parked); events totally ordered under one harness lock; "
+      "interleavings finer than objective-call / store-sync granularity are only sampled by the stress runs",
+      "TLC exhaustive interleaving model + TLC-emitted schedules steered onto real threads + TLC trace validation", "DESIGN.md 5/C07")
